@@ -18,7 +18,8 @@ for log in sys.argv[1:]:
         m = re.match(r"=== (C\d\d-\d+)", line)
         if m:
             cur = m.group(1)
-            rec[cur] = {"confirm": None, "viol": 0, "nofail": False, "failing": [], "done": None, "keys": None, "known": 0}
+            prev_confirm = rec.get(cur, {}).get("confirm")
+            rec[cur] = {"confirm": prev_confirm, "viol": 0, "nofail": False, "failing": [], "done": None, "keys": None, "known": 0}
             continue
         if cur is None:
             continue
